@@ -39,7 +39,7 @@ from dask.dataframe.dask_expr._expr import (
     plain_column_projection,
 )
 from dask.dataframe.dispatch import make_meta, meta_nonempty
-from dask.dataframe.utils import is_scalar
+from dask.dataframe.utils import is_scalar, meta_series_constructor
 from dask.typing import no_default
 from dask.utils import M, apply, funcname
 
@@ -955,6 +955,41 @@ class Max(Reduction):
         "axis": 0,
     }
     reduction_chunk = M.max
+
+    # An empty partition has no maximum (minimum). pandas reduces it to NaN,
+    # which upcasts the partial results of integer columns to float and cannot
+    # be told from a missing value when ``skipna=False``. The partial result of
+    # a partition is therefore kept as a one-row object, and an empty partition
+    # contributes a zero-row one, which ``_concat`` drops when the partial
+    # results are concatenated (it keeps one if all of them are empty, so that
+    # an empty collection still reduces like an empty pandas object).
+
+    @classmethod
+    def chunk(cls, df, **kwargs):
+        out = cls.reduction_chunk(df, **kwargs)
+        if is_series_like(out):
+            # DataFrame partition reduced along the rows: one row
+            return df.loc[:, out.index] if len(df) == 0 else out.to_frame().T
+        # Series partition, or DataFrame partition with axis=None: one element
+        if len(df) == 0:
+            return df if df.ndim == 1 else cls._element(df, out).iloc[:0]
+        return cls._element(df, out)
+
+    @classmethod
+    def combine(cls, inputs: list, **kwargs):
+        df = _concat_partials(inputs)
+        if len(df) == 0:
+            return df
+        out = cls.reduction_chunk(df, **kwargs)
+        return out.to_frame().T if is_series_like(out) else cls._element(df, out)
+
+    @staticmethod
+    def _element(like, value):
+        return meta_series_constructor(like)(
+            [value],
+            dtype=getattr(like, "dtype", None),
+            name=getattr(like, "name", None),
+        )
 
     @property
     def chunk_kwargs(self):
